@@ -132,6 +132,11 @@ func buildSource(t testing.TB, seed int64, ops []c20Op) *c20Source {
 		switch op {
 		case "contact-request":
 			_, _ = tp.Service.ContactRequestSend(ctx, &protocoltypes.ContactRequestSend_Request{Contact: contact})
+		case "contact-activate":
+			if gi, err := tp.Service.GroupInfo(ctx, &protocoltypes.GroupInfo_Request{ContactPk: xpk}); err == nil {
+				_, _ = tp.Service.ActivateGroup(ctx, &protocoltypes.ActivateGroup_Request{GroupPk: gi.Group.PublicKey})
+				_, _ = tp.Service.AppMessageSend(ctx, &protocoltypes.AppMessageSend_Request{GroupPk: gi.Group.PublicKey, Payload: []byte("contact group message")})
+			}
 		case "contact-block":
 			_, _ = tp.Service.ContactBlock(ctx, &protocoltypes.ContactBlock_Request{ContactPk: xpk})
 		case "join-activate-G1":
@@ -213,6 +218,7 @@ func buildSource(t testing.TB, seed int64, ops []c20Op) *c20Source {
 type restored struct {
 	err        error
 	hung       bool
+	serviceErr string
 	panicked   interface{}
 	accountPK  []byte
 	accountGPK []byte
@@ -224,7 +230,7 @@ type restored struct {
 // preexisting: the target secret store already holds an account.
 // patience: how long a restore may run before it is taken to wait for entries that are not in the archive; valid
 // archives get a long one (a slow machine must not turn into a rejection), mutated ones a short one.
-func restoreInto(t testing.TB, src *c20Source, archive []byte, preexisting bool, patience time.Duration) *restored {
+func restoreInto(t testing.TB, src *c20Source, archive []byte, preexisting bool, patience time.Duration, withService bool) *restored {
 	r := &restored{groups: map[string]groupSnapshot{}}
 	ctx, cancel := context.WithCancel(context.Background())
 	defer cancel()
@@ -298,6 +304,34 @@ func restoreInto(t testing.TB, src *c20Source, archive []byte, preexisting bool,
 		r.groups[k] = snapshotGroup(gc)
 		_ = gc.Close()
 	}
+	// a service started on the restored node finds every exported group again (it rebuilds its group registry from
+	// the account log) and can activate it (only for archives that are expected to be complete: on a truncated log the
+	// activation would wait for entries that exist nowhere)
+	if !withService {
+		return r
+	}
+	func() {
+		defer func() {
+			if p := recover(); p != nil {
+				r.serviceErr = fmt.Sprintf("panic while starting a service on the restored node: %v", p)
+			}
+		}()
+		tp, cleanupSvc := NewTestingProtocol(ctx, t, &TestingOpts{Logger: zap.NewNop(), Mocknet: mn, CoreAPIMock: node, OrbitDB: odb, SecretStore: ssB}, dsB)
+		defer cleanupSvc()
+		for k, g := range src.groupDef {
+			if g.GroupType == protocoltypes.GroupType_GroupTypeAccount {
+				continue
+			}
+			if _, err := tp.Service.GroupInfo(ctx, &protocoltypes.GroupInfo_Request{GroupPk: g.PublicKey}); err != nil {
+				r.serviceErr = fmt.Sprintf("the service on the restored node does not know exported group %s (%s): %v", k[:8], g.GroupType, err)
+				return
+			}
+			if _, err := tp.Service.ActivateGroup(ctx, &protocoltypes.ActivateGroup_Request{GroupPk: g.PublicKey}); err != nil {
+				r.serviceErr = fmt.Sprintf("the service on the restored node cannot activate exported group %s (%s): %v", k[:8], g.GroupType, err)
+				return
+			}
+		}
+	}()
 	return r
 }
 
@@ -345,6 +379,8 @@ func TestVerifC20(t *testing.T) {
 	}
 	rec(nil)
 	// forked logs need a message of this node and the concurrent branch: depth 3 histories, always included
+	// a contact group that was opened, whose contact is then blocked / whose request is still pending
+	hists = append(hists, []c20Op{"contact-request", "contact-activate"}, []c20Op{"contact-request", "contact-activate", "contact-block"})
 	hists = append(hists, []c20Op{"join-activate-G1", "message-G1", "fork-G1"}, []c20Op{"join-activate-G1", "fork-G1", "message-G1"}, []c20Op{"join-activate-G1", "fork-G1", "fork-G1"})
 	var wg sync.WaitGroup
 	sem := make(chan struct{}, 8)
@@ -447,7 +483,7 @@ func c20CheckValid(rep *vrep.Report, t testing.TB, src *c20Source) {
 	}
 	rep.Eval(fmt.Sprintf("valid/archive-content/groups=%d/max-heads=%d", len(src.groups), maxHeads))
 	// (b) restore into an empty node
-	r := restoreInto(t, src, src.archive, false, 60*time.Second)
+	r := restoreInto(t, src, src.archive, false, 60*time.Second, true)
 	rep.AddTransitions(1)
 	rep.Eval(fmt.Sprintf("valid/restore/groups=%d/err=%v", len(src.groups), r.err != nil))
 	if r.panicked != nil {
@@ -457,6 +493,9 @@ func c20CheckValid(rep *vrep.Report, t testing.TB, src *c20Source) {
 	if r.err != nil {
 		viol("valid-archive-rejected", r.err.Error())
 		return
+	}
+	if r.serviceErr != "" {
+		viol("restored-group-unusable", r.serviceErr)
 	}
 	if !bytes.Equal(r.accountPK, src.accountPK) || !bytes.Equal(r.accountGPK, src.accountGroupPK) {
 		viol("identity-differs", "restored account / account group key differ from the exported account")
@@ -569,7 +608,7 @@ func c20Mutations(rep *vrep.Report, t testing.TB, src *c20Source) {
 	}
 	muts = append(muts, mut{"restore-onto-existing-account", clone(), true, true})
 
-	valid := restoreInto(t, src, src.archive, false, 60*time.Second)
+	valid := restoreInto(t, src, src.archive, false, 60*time.Second, false)
 	var wg sync.WaitGroup
 	sem := make(chan struct{}, 12)
 	for _, m := range muts {
@@ -578,7 +617,7 @@ func c20Mutations(rep *vrep.Report, t testing.TB, src *c20Source) {
 		sem <- struct{}{}
 		go func() {
 			defer func() { <-sem; wg.Done() }()
-			r := restoreInto(t, src, writeTar(m.ms), m.preexist, 4*time.Second)
+			r := restoreInto(t, src, writeTar(m.ms), m.preexist, 4*time.Second, false)
 			rep.AddTransitions(1)
 			outcome := "rejected"
 			switch {
